@@ -146,7 +146,7 @@ def mutations(rng: Rng, path: List[Any], k: int = 4) -> List[List[Any]]:
     out = []
     n = len(path)
     for _ in range(k):
-        kind = rng.below(5)
+        kind = rng.below(8)
         i = rng.below(n) if n else 0
         if kind == 0 and n:
             out.append(path[:i] + path[i + 1:])
@@ -157,12 +157,18 @@ def mutations(rng: Rng, path: List[Any], k: int = 4) -> List[List[Any]]:
             out.append(path[:i])
         elif kind == 3:
             out.append(path + [rng.choice(["extra", 1, "root"])])
-        else:
+        elif kind == 4:
             j = rng.below(n) if n else 0
             q = list(path)
             if n:
                 q[i], q[j] = q[j], q[i]
             out.append(q)
+        elif kind == 5 and n:  # an element that cannot be a dictionary key at all (RequestFormat allows dicts as options)
+            out.append(path[:i] + [rng.choice([["x"], {"a": 1}, [], {}])] + path[i + 1:])
+        elif kind == 6 and n:  # non-string scalars: None, float, bool, negative int
+            out.append(path[:i] + [rng.choice([None, 1.5, True, -1, 0, ""])] + path[i + 1:])
+        else:                  # empty request / over-long request
+            out.append([] if rng.chance(1, 3) else path + ["extra"] * rng.range(2, 40))
     return out
 
 
